@@ -22,6 +22,7 @@ from checks import store_replay
 INVS = ['NoErr', 'FlatOK', 'LenOK', 'IndexOK', 'HandlesOK', 'SizeCacheOK', 'ShapeOK', 'NoDup', 'GettersOK']
 PLAIN = '{<<0,1>>}'
 MIXED = '{<<0,1>>, <<1,0>>, <<1,2>>, <<0,0>>}'
+LINES = '{<<0,1>>, <<1,0>>, <<2,0>>, <<3,1>>}'      # tokens holding 0..3 line breaks
 
 
 def cfg(L: int, live: int, new: int, sizes: str, lens: str, modes: str, depth: int, hist: bool,
@@ -51,13 +52,15 @@ def gen_configs(prop: str, tier: str) -> list[tuple[str, int, dict]]:
     if prop == 'C07':
         if tier == 'quick':
             return [('L2', 2, cfg(2, 6, 2, PLAIN, '0..6', '{"plain"}', 2, True)),
-                    ('L3', 3, cfg(3, 7, 3, PLAIN, '{0,1,3,4,6,7}', '{"plain"}', 2, True))]
+                    ('L3', 3, cfg(3, 7, 3, PLAIN, '{0,1,3,4,6,7}', '{"plain"}', 2, True)),
+                    ('L2-nl', 2, cfg(2, 5, 1, '{<<0,1>>, <<1,0>>}', '{0,3,4,5}', '{"plain","allnl"}', 2, True))]
         return [('L2', 2, cfg(2, 7, 3, PLAIN, '0..7', '{"plain"}', 2, True)),
                 ('L2-d3', 2, cfg(2, 5, 2, PLAIN, '{0,2,3,4,5}', '{"plain"}', 3, True)),
                 ('L3', 3, cfg(3, 8, 3, PLAIN, '0..8', '{"plain"}', 2, True)),
                 ('L4', 4, cfg(4, 9, 4, PLAIN, '{0,3,4,5,8,9}', '{"plain"}', 2, True))]
     if tier == 'quick':
-        return [('L2-sizes', 2, cfg(2, 4, 1, MIXED, '0..4', '{"plain","onenl","allnl"}', 2, True))]
+        return [('L2-sizes', 2, cfg(2, 4, 1, MIXED, '0..4', '{"plain","onenl","allnl"}', 2, True)),
+                ('L2-lines', 2, cfg(2, 4, 1, LINES, '{2,3,4}', '{"allnl","onenl"}', 2, True))]
     return [('L2-sizes', 2, cfg(2, 5, 2, MIXED, '0..5', '{"plain","onenl","allnl"}', 2, True)),
             ('L3-sizes', 3, cfg(3, 6, 1, MIXED, '{0,2,3,5,6}', '{"plain","onenl","allnl"}', 2, True))]
 
